@@ -221,6 +221,22 @@ def _body_paths(check):
                 o.rule = "INTEG-ORDER"
                 kept.append(o)
         check.obs[n0:] = kept
+    # 'MUSCL with every limiter (about 2)': on smooth data the two one-sided slopes agree to leading order, so
+    # second order needs phi(s,s) = s on the statement's scale range -- an absolute cut-off on the slope product
+    # above that range turns the scheme into first-order upwind for small-amplitude / long-wavelength data
+    # (same obligations as C12 LIM-CONSIST / LIM-ZERO / LIM-ODD)
+    from . import c12
+    from ..disc1d import LIMITERS
+    for ln_ in [n_ for n_ in LIMITERS if n_ in proj.module("xnum").functions]:
+        n0 = len(check.obs)
+        check.guarded("LIM-AXIOM", "xnum." + ln_, lambda: c12.analyse(check, proj, ln_))
+        check.obs[n0:] = [o for o in check.obs[n0:] if o.rule in ("LIM-CONSIST", "LIM-ZERO", "LIM-ODD", "LIM-AXIOM")]
+    # 'the error of solve(...)[-1] at time T': the snapshot returned for a save time is the state of the
+    # trajectory advanced to exactly that time by one forward step (same obligations as C07 DRV-SNAPSHOT)
+    from ..driver_rules import analyse_solve
+    from .c07 import report
+    res_, _ = analyse_solve(proj)
+    report(check, res_, ("DRV-SNAPSHOT", "TS-FRESH-MAIN"))
     from .c10 import enclose
     n0 = len(check.obs)
     check.guarded("WAVE-ENCLOSE", "numflux", lambda: enclose(check, proj))
